@@ -635,7 +635,9 @@ class Engine:
         """Fork until `term` has a single value on this path; returns the z3 value."""
         while True:
             r = self._check() if self.model is None else "sat"
-            if r != "sat":
+            if r != "sat" or self.model is None:
+                if r == "unsat":
+                    raise PathAbort("path condition unsatisfiable while concretizing")
                 raise SxInconclusive("cannot concretize")
             v = self.model.eval(term, model_completion=True)
             if self.decide(term == v):
